@@ -131,7 +131,7 @@ func run(c *core.Ctx, idx int) {
 		s := corpus[idx]
 		judge(c, &s, s.Out, "recorded")
 	case "formulas":
-		runFormulas(c)
+		runFormulasImpl(c)
 	case "tables":
 		runTables(c)
 	}
